@@ -10,7 +10,7 @@ out=seeded/RESULTS.txt
 for s in $seeds; do
   prop=${s%%-*}
   git -C "$repo" checkout -q -- . 
-  if ! git -C "$repo" apply "seeded/$s/patch.diff" 2>/dev/null; then echo "$s $prop patch-does-not-apply" | tee -a $out; continue; fi
+  if ! git -C "$repo" apply "$(pwd)/seeded/$s/patch.diff" 2>/dev/null; then echo "$s $prop patch-does-not-apply" | tee -a $out; continue; fi
   find replays/$prop -name '*.json' -delete 2>/dev/null
   t0=$(date +%s)
   ./check "$prop" quick > "/tmp/seedmatrix_$s.log" 2>&1; rc=$?
